@@ -334,6 +334,9 @@ func (g *gen) freshValueType(extOnly bool, label string) TypeID {
 				g.basicsUsed["byte"] = true
 				return g.addType(Type{Kind: KBasic, Basic: "uint8", AltSpell: "byte"})
 			}
+			if rapid.Bool().Draw(g.rt, "aliasany") {
+				return g.addType(Type{Kind: KBasic, Basic: "interface{}", AltSpell: "any"})
+			}
 			return g.addType(Type{Kind: KBasic, Basic: "int32", AltSpell: "rune"})
 		}
 		if g.allow("basic") {
